@@ -63,7 +63,9 @@ class Models:
         e = self.e
         r = e.fresh('sqrt', R)
         # total on reals: for x < 0 the result is unconstrained (NaN in IEEE); definedness is an obligation where enabled
-        st.pc.append(z3.Implies(x >= 0, z3.And(r >= 0, r * r == x)))
+        ax_ = z3.Implies(x >= 0, z3.And(r >= 0, r * r == x))
+        e.axiom_ids.add(ax_.get_id())
+        st.pc.append(ax_)
         self.used('std::sqrt: r>=0 and r*r==x for x>=0')
         return r
 
